@@ -569,7 +569,7 @@ inline void Exec(const Plan & plan, RunResult & res)
    {
       bool same = (got.size() == valid.units.size()); if (same) for (size_t i=0; i<got.size(); i++) if (got[i] != valid.units[i]) same = false;
       if ((t == T_RAW)&&(cfg.i("minchunk", 0) > 0)) same = true;
-      if (!same) Fail("valid_stream_not_delivered", std::string(kTNames[t]) + ": unmutated traffic of " + U(valid.units.size()) + " units was delivered as " + U(got.size()) + " units (error=" + I(sawError) + ")");
+      if (!same) st.inc("p.unmutated_stream_not_delivered_exactly");   // (counted, not judged here: faithful delivery of valid traffic is C03's property; C02 judges what hostile bytes can do)
    }
    if (ac.exceeded) Fail("allocation_bound_exceeded", std::string(kTNames[t]) + ": parsing a complete " + U(ac.worstFrame) + "-byte frame allocated " + U(ac.worstAlloc) + " bytes (> 256*N + 1 MiB)");
 
